@@ -26,6 +26,7 @@ type ACall struct {
 	Chips    int64  `json:"chips"`
 	DelayMs  int64  `json:"delay_ms"`
 	Accepted bool   `json:"accepted_by_hand_engine"`
+	Panic    string `json:"panic,omitempty"` // the actor panicked instead of answering (recorded as an unacceptable call)
 }
 
 type PView struct {
@@ -84,6 +85,7 @@ type AObs struct {
 	EngineSame bool    `json:"engine_table_unchanged,omitempty"`
 	OthersSame bool    `json:"other_actors_unaffected,omitempty"`
 	TableStat  string  `json:"table_status,omitempty"`
+	Edge       bool    `json:"edge_of_sizing_rules,omitempty"` // bot: the asked player's round stack was set to an edge value
 }
 
 type ACase struct {
@@ -207,6 +209,17 @@ type botSlot struct {
 	last     int64
 }
 
+// hand a table snapshot to an actor; a panic inside the actor is reported, not propagated
+func deliver(ad *recAdapter, t *pt.Table) (panicked string) {
+	defer func() {
+		if rec := recover(); rec != nil {
+			panicked = fmt.Sprint(rec)
+		}
+	}()
+	ad.UpdateTableState(t)
+	return ""
+}
+
 func jsonHash(t *pt.Table) string {
 	js, _ := t.GetJSON()
 	h := sha1.Sum([]byte(js))
@@ -283,7 +296,11 @@ func runActorViews(c *ACase) {
 			b.calls, b.autoJoin = nil, 0
 			mu.Unlock()
 			b.ad.t0 = time.Now()
-			b.ad.UpdateTableState(t)
+			if pn := deliver(b.ad, t); pn != "" {
+				mu.Lock()
+				b.calls = append(b.calls, ACall{Action: "raise", Chips: -1, Panic: pn})
+				mu.Unlock()
+			}
 			if o.B.AtTable && !o.B.SatIn {
 				time.Sleep(130 * time.Millisecond) // the auto-join request is made 100 ms later
 			}
@@ -298,6 +315,50 @@ func runActorViews(c *ACase) {
 		}
 		if repeat {
 			return
+		}
+		// ---- bots at the edges of the sizing rules: the same request with the asked player's round stack set to the smallest
+		// value for which the hand engine still offers the bet / raise (a fresh bot each time; the answer is tried on the engine)
+		if gs != nil && t.State.Status == pt.TableStateStatus_TableGamePlaying && gs.Status.CurrentEvent == "RoundStarted" {
+			gp := gs.Status.CurrentPlayer
+			if p := gs.GetPlayer(gp); p != nil && !p.Fold && p.StackSize > 0 {
+				edge := int64(-1)
+				switch {
+				case has(p.AllowedActions, "bet") && p.Wager == 0 && gs.Status.MiniBet > 0:
+					edge = gs.Status.MiniBet
+				case has(p.AllowedActions, "raise") && p.Wager < gs.Status.CurrentWager:
+					edge = gs.Status.CurrentWager + gs.Status.PreviousRaiseSize + 1
+				case has(p.AllowedActions, "raise") && p.Wager == gs.Status.CurrentWager && gs.Status.CurrentWager+gs.Status.PreviousRaiseSize >= gs.Status.MiniBet:
+					edge = gs.Status.CurrentWager + gs.Status.PreviousRaiseSize
+				}
+				if edge > p.Wager && edge != p.InitialStackSize {
+					data, _ := json.Marshal(t)
+					var t2 pt.Table
+					if json.Unmarshal(data, &t2) == nil && t2.State.GameState != nil {
+						gs2 := t2.State.GameState
+						p2 := gs2.GetPlayer(gp)
+						p2.InitialStackSize, p2.StackSize = edge, edge-p2.Wager
+						id := idOf(d.playerIDAt(gp))
+						eb := mkBot(id)
+						o := AObs{Kind: "bot", Player: id, B: &BView{AtTable: true, SatIn: true, HasGame: true, NewGame: true, Fresher: true, Playing: true, DealtIn: true},
+							V: pviewOf(gs2, gp), TableStat: string(t2.State.Status), Edge: true}
+						eb.ad.t0 = time.Now()
+						if pn := deliver(eb.ad, &t2); pn != "" {
+							mu.Lock()
+							eb.calls = append(eb.calls, ACall{Action: "raise", Chips: -1, Panic: pn})
+							mu.Unlock()
+						}
+						mu.Lock()
+						o.Calls = append([]ACall{}, eb.calls...)
+						mu.Unlock()
+						for k := range o.Calls {
+							if o.Calls[k].Panic == "" {
+								o.Calls[k].Accepted = tryOnEngine(gs2, gp, o.Calls[k])
+							}
+						}
+						c.Obs = append(c.Obs, o)
+					}
+				}
+			}
 		}
 		// ---- player runners: a fresh runner per sampled request
 		if gs != nil && t.State.Status == pt.TableStateStatus_TableGamePlaying {
